@@ -150,6 +150,90 @@ impl Elligator2Config for ToyEll {
     const COEFF_A_OVER_COEFF_B: F101 = MontFp!("56");
 }
 
+// ---- Elligator 2 configurations over primes p = 3 (mod 4): there -1 is a non-square, so -1/Z is a square for every
+// non-square Z and the exceptional denominator 1 + Z u^2 of the map HAS roots u = +-sqrt(-1/Z) (RFC 9380 6.7.1 step 2:
+// "if x1 == 0, set x1 = -(J/K)").  Over the p = 1 (mod 4) fields of ToyEll / Bandersnatch that branch is dead code.
+// Constants computed in Python (props/C13/NOTES.md "Elligator 2 configurations"): twisted Edwards x^2 + y^2 = 1 + d x^2 y^2,
+// J = 2(1+d)/(1-d), K = 4/(1-d), group order = COFACTOR * r (exhaustive count for the toys, baby-step/giant-step over
+// the Hasse interval for 2^61 - 1), generator = COFACTOR * (random point).
+#[derive(MontConfig)]
+#[modulus = "103"]
+#[generator = "5"]
+pub struct F103Config;
+pub type F103 = Fp64<MontBackend<F103Config, 1>>;
+#[derive(MontConfig)]
+#[modulus = "13"]
+#[generator = "2"]
+pub struct F13Config;
+pub type F13 = Fp64<MontBackend<F13Config, 1>>;
+#[derive(MontConfig)]
+#[modulus = "31"]
+#[generator = "3"]
+pub struct F31Config;
+pub type F31 = Fp64<MontBackend<F31Config, 1>>;
+#[derive(MontConfig)]
+#[modulus = "2305843009213693951"]
+#[generator = "37"]
+pub struct FM61Config;
+pub type FM61 = Fp64<MontBackend<FM61Config, 1>>;
+#[derive(MontConfig)]
+#[modulus = "288230376166843361"]
+#[generator = "3"]
+pub struct FrM61aConfig;
+pub type FrM61a = Fp64<MontBackend<FrM61aConfig, 1>>;
+#[derive(MontConfig)]
+#[modulus = "576460752649155233"]
+#[generator = "3"]
+pub struct FrM61bConfig;
+pub type FrM61b = Fp64<MontBackend<FrM61bConfig, 1>>;
+
+macro_rules! ell2_config {
+    ($name:ident, $fq:ty, $fr:ty, cof = $h:expr, cof_inv = $hi:expr, d = $d:expr, gen = ($gx:expr, $gy:expr),
+     j = $j:expr, k = $k:expr, z = $z:expr, ksq_inv = $ki:expr, j_on_k = $jk:expr) => {
+        pub struct $name;
+        impl CurveConfig for $name {
+            const COFACTOR: &'static [u64] = &[$h];
+            const COFACTOR_INV: $fr = MontFp!($hi);
+            type BaseField = $fq;
+            type ScalarField = $fr;
+        }
+        impl TECurveConfig for $name {
+            const COEFF_A: $fq = MontFp!("1");
+            const COEFF_D: $fq = MontFp!($d);
+            const GENERATOR: te::Affine<Self> = te::Affine::new_unchecked(MontFp!($gx), MontFp!($gy));
+            type MontCurveConfig = Self;
+        }
+        impl MontCurveConfig for $name {
+            const COEFF_A: $fq = MontFp!($j);
+            const COEFF_B: $fq = MontFp!($k);
+            type TECurveConfig = Self;
+        }
+        impl Elligator2Config for $name {
+            const Z: $fq = MontFp!($z);
+            const ONE_OVER_COEFF_B_SQUARE: $fq = MontFp!($ki);
+            const COEFF_A_OVER_COEFF_B: $fq = MontFp!($jk);
+        }
+    };
+}
+// F_103, d = 43: order 8 * 13, Z = -1 (exceptional u = +-1), g(-J/K) a square: the exceptional input takes the x1 branch
+ell2_config!(Toy103a, F103, F13, cof = 8, cof_inv = "5", d = "43", gen = ("30", "22"),
+             j = "96", k = "98", z = "-1", ksq_inv = "33", j_on_k = "22");
+// F_103, d = 12: order 8 * 13, Z = 5 (exceptional u = +-91), g(-J/K) a non-square: x2 = 0, the point (0,0) -> identity
+ell2_config!(Toy103b, F103, F13, cof = 8, cof_inv = "5", d = "12", gen = ("54", "48"),
+             j = "7", k = "9", z = "5", ksq_inv = "14", j_on_k = "58");
+// F_127, d = 10: order 4 * 31, Z = 3 (exceptional u = +-13), g(-J/K) a non-square
+ell2_config!(Toy127Ell, F127, F31, cof = 4, cof_inv = "8", d = "10", gen = ("78", "107"),
+             j = "54", k = "56", z = "3", ksq_inv = "13", j_on_k = "69");
+// F_(2^61 - 1), d = 29: order 8 * 288230376166843361, Z = -1, g(-J/K) a square
+ell2_config!(M61a, FM61, FrM61a, cof = 8, cof_inv = "252201579145987941", d = "29",
+             gen = ("1024162441322706899", "1953785824883159611"),
+             j = "329406144173384848", k = "329406144173384850", z = "-1", ksq_inv = "49", j_on_k = "15");
+// F_(2^61 - 1), d = 112: order 4 * 576460752649155233, Z = 3, g(-J/K) a non-square
+ell2_config!(M61b, FM61, FrM61b, cof = 4, cof_inv = "432345564486866425", d = "112",
+             gen = ("143050599322750292", "1520780196982311020"),
+             j = "1703415556356062196", k = "1703415556356062198", z = "3",
+             ksq_inv = "144115188075856642", j_on_k = "1152921504606847032");
+
 // ---------------------------------------------------------------- conversions
 fn elem<F: Field>(a: &Arg) -> F {
     assert_eq!(a.len() as u64, F::extension_degree(), "harness: wrong coordinate count");
@@ -412,6 +496,8 @@ fn run(op: &str, a: &[Arg]) -> Vec<Arg> {
         8 => field_op::<ark_secp256k1::Fq>(op, a),
         9 => field_op::<F127>(op, a),
         10 => field_op::<F101>(op, a),
+        12 => field_op::<F103>(op, a),
+        13 => field_op::<FM61>(op, a),
         11 => field_op::<ark_mnt4_753::Fq>(op, a),
         21 => wb_op::<ark_test_curves::bls12_381::g1::Config>(op, a),
         22 => wb_op::<ark_test_curves::bls12_381::g2::Config>(op, a),
@@ -423,6 +509,11 @@ fn run(op: &str, a: &[Arg]) -> Vec<Arg> {
         28 => wb_op::<ToyWb>(op, a),
         31 => ell_op::<ark_ed_on_bls12_381_bandersnatch::BandersnatchConfig>(op, a),
         32 => ell_op::<ToyEll>(op, a),
+        33 => ell_op::<Toy103a>(op, a),
+        34 => ell_op::<Toy103b>(op, a),
+        35 => ell_op::<Toy127Ell>(op, a),
+        36 => ell_op::<M61a>(op, a),
+        37 => ell_op::<M61b>(op, a),
         _ => unsupported(),
     }
 }
